@@ -456,11 +456,30 @@ def stream_params(case, seed):
     return findings, {}
 
 
-def budget_params(case, seed):
+def budget_params(case, seed, warm_instance=False):
+    """`warm_instance`: `random_state` is a caller-owned RandomState instance (what get_params reports includes its state) and
+    `update` for an already processed part of the stream comes before the first query."""
     findings = []
     bm = case.build()
     data = case.data(seed)
+    if warm_instance:
+        if "random_state" not in bm.get_params(deep=False) or not data["utility_chunks"]:
+            return findings, dict(raised="Skip: no random_state parameter")
+        inst = np.random.RandomState(seed % 1000 + 5)
+        inst.random_sample(2)
+        bm.set_params(random_state=inst)
     par0 = snap.params_snapshot(bm)
+    if warm_instance:
+        chunk = data["utility_chunks"][0]
+        n0 = len(np.asarray(list(case.query_kwargs(data, chunk).values())[0]))
+        try:
+            _call(bm.update, **case.update_kwargs(data, chunk, np.arange(min(2, n0))))
+        except Exception as e:
+            return findings, dict(raised=f"update: {type(e).__name__}: {str(e)[:80]}")
+        for k in snap.diff_keys(par0, snap.params_snapshot(bm)):
+            findings.append(dict(kind="param-write", name=k, method="update", what=f"get_params()['{k}'] changed during update (called before the first query_by_utility)"))
+        if findings:
+            return findings, {}
     for chunk in data["utility_chunks"]:
         kw = case.query_kwargs(data, chunk)
         a0 = snap.arrays_snapshot(kw)
